@@ -12,6 +12,27 @@ import scipy.linalg as sla
 
 MAX_COND = 1e4
 
+# memory layout of the arrays handed to constructors: "C", "F" (Fortran order), "S" (strided view of a larger
+# buffer) or "mix" (cycles through the three).  Values never depend on it, so two leaves built from the same seed
+# under different layouts have equal parameters.
+LAYOUT = {"mode": "mix", "n": 0}
+
+
+def lay(a):
+    a = np.array(a, dtype=float, copy=True)
+    mode = LAYOUT["mode"]
+    if mode == "mix":
+        LAYOUT["n"] += 1
+        mode = "CFS"[LAYOUT["n"] % 3]
+    if mode == "F" and a.ndim == 2:
+        return np.asfortranarray(a)
+    if mode == "S":
+        big = np.zeros(tuple(2 * k for k in a.shape))
+        view = big[tuple(slice(None, None, 2) for _ in a.shape)]
+        view[...] = a
+        return view
+    return a
+
 
 class Node:
     def __init__(self, m, d, desc, *, sym=False, pd=False, inv=False, supplied=(), parts=()) -> None:
@@ -78,7 +99,7 @@ def leaf(rng, n: int, kind: str | None = None, depth: int = 0) -> Node:  # noqa:
         kind = str(rng.choice(["dense_pd", "pos_diag", "tri_fact_pd", "eig_pd"]))
     if n == 1 and kind.startswith("block"):
         kind = {"block_pd": "pos_diag", "block_sym": "diag", "block_sq": "dense_sq"}[kind]
-    c = lambda a: np.array(a, dtype=float, copy=True)  # noqa: E731
+    c = lay
     if kind == "identity":
         return Node(mm.IdentityMatrix(n), np.identity(n), [kind, n], pd=True)
     if kind in ("pos_scaled", "scaled"):
@@ -280,7 +301,7 @@ def rect_leaf(rng, rows: int, cols: int, kind: str | None = None) -> Node:
         kind = str(rng.choice(RECT_LEAVES))
     if kind == "rect" or (kind == "block_row" and cols < 2) or (kind == "block_col" and rows < 2):
         a = rng.standard_normal((rows, cols))
-        arr = a.copy()
+        arr = lay(a)
         return Node(mm.DenseRectangularMatrix(arr), a, ["rect", rows, cols], supplied=[arr])
     if kind == "block_row":
         k = int(rng.integers(1, cols))
